@@ -2,12 +2,12 @@ SPECIFICATION ISpec
 CONSTANTS
   Sym = {97, 10, 32, 9}
   MaxLen = 3
-  WithFailAt = FALSE
+  WithFailAt = TRUE
   MaxOps = 8
   ColBug = FALSE
   SetPosBug = FALSE
   FailBug = FALSE
-  EofBug = TRUE
+  EofBug = FALSE
 VIEW IViewDepth
-INVARIANTS ReturnsAgree
+INVARIANTS ITypeOK Refines ReturnsAgree SavedExact FutureRefines
 CHECK_DEADLOCK FALSE
